@@ -3,6 +3,8 @@
 package validate
 
 import (
+	"encoding/json"
+
 	"github.com/go-openapi/analysis"
 	"github.com/go-openapi/loads"
 	"github.com/go-openapi/spec"
@@ -11,3 +13,7 @@ import (
 // environment constructors (engine: contract stubs of DESIGN 2.4; native: the real loader / analyser)
 func verifNewDocument(sw *spec.Swagger) *loads.Document
 func verifNewAnalyzer(ops map[string]map[string]*spec.Operation) *analysis.Spec
+
+// json.Number carriers: a decimal integer literal holding x, or a literal with a fraction holding f
+func verifJSONNumberInt(x int64) json.Number
+func verifJSONNumberFloat(f float64) json.Number
